@@ -49,7 +49,7 @@ CHECKS['C13'] = dict(
     rule='for every font variant EVERY code point 0..0x110010 is looked up through DirectCmap (options 0) and CachedCmap (gr_face_cacheCmap) and compared with a reference lookup written from the OpenType spec '
          '(fmt 12 above U+FFFF, fmt 4 for the BMP, 0 unmapped); gr_face_is_char_supported compared with reference||Silf pseudo map. Variants: all shipped fonts; synthesised cmaps over the structure space '
          '{1,2,3,17,256 segments} x {delta, wrapping delta, idRangeOffset arrays with zero entries, mixed} x {standard FFFF terminator, U+FFFF mapped, real segment ending at FFFF} x 7 fmt-12 group lists '
-         '(plane-edge straddling, BMP entries, 300 groups, U+10FFFF mapped); all 31x4 presence combinations of the encoding records (0,0)(0,1)(0,2)(0,3)(3,1) x (0,4)(3,10) with distinguishable contents. '
+         '(plane-edge straddling, BMP entries, 300 groups, U+10FFFF mapped); first segment starting at U+0000 (1, 2, 9 code points) x closing segment ending at FFFF with 1..257 real mappings x {delta, array}; all 31x4 presence combinations of the encoding records (0,0)(0,1)(0,2)(0,3)(3,1) x (0,4)(3,10) with distinguishable contents. '
          'distinct = distinct per-plane reference maps',
     state_meaning='one (font variant, plane) block; transitions = individual code-point lookups compared with the reference',
     level_text='Exhaustive per font over the whole code space through both lookup paths against an independent reference; the font space is a bounded enumeration of cmap structures.',
@@ -78,7 +78,7 @@ CHECKS['C07'] = dict(
 CHECKS['C18'] = dict(
     level='model_checking',
     steps=[dict(mode='asan', bin='c18_features')],
-    rule='fonts: all shipped + synthesised Feat/Sill families whose bit widths hit every residue around a 32-bit word boundary ((1,31,1) (16,16,1) (17,16) (15,15,2) (16,0,16,2), zero-settings features, 33x1, 9x8, 40 mixed, Feat v1, 129/130 zero-settings features) + S-full variants. '
+    rule='fonts: all shipped + synthesised Feat/Sill families whose bit widths hit every residue around a 32-bit word boundary ((1,31,1) (16,16,1) (17,16) (15,15,2) (16,0,16,2), zero-settings features, 33x1, 9x8, 40 mixed, Feat v1, 129/130 zero-settings features, 1- to 4-character ids, ids spread over the whole unsigned 32-bit range in four low/high mixes) + S-full variants. '
          'static: every gr_face_*/gr_fref_* feature, language and label query vs independent Feat/Sill/name readers (labels in 3 encodings x 6 requested languages, zero-/space-padded tags). '
          'BFS: explicit-state search over histories of set(f,v) (f in a boundary feature subset, v in {0,1,mid,max,max+1,0xFFFF}) and clone, from start states {clone(NULL), defaults, each language}; after EVERY operation ALL features are read and compared with a plain-array model; '
          'state = value vector (deduplicated), depth chosen so that ops^depth <= 30k (quick) / 400k (thorough), each expansion replays the history on a fresh gr_feature_val',
@@ -92,10 +92,10 @@ CHECKS['C18'] = dict(
 from checks_py import stream_families, cached_binary
 HOOK_COMMITS.append('7573bac2'); HOOK_COMMITS.append('be5b62f7')
 
-_PROG_RULE = ('fonts enumerated by gen/progenum.py and filtered by the REAL loader: (action) every action program of <=3 atoms (quick) / <=4 atoms + 5 structural atoms (thorough) over a 26-atom alphabet '
+_PROG_RULE = ('fonts enumerated by gen/progenum.py and filtered by the REAL loader: (action) every action program of <=3 atoms (quick) / <=4 atoms (thorough) over a 26-atom alphabet, plus every program of 4 (quick, >= 3 distinct atoms) / 5 (thorough) atoms over the 11 structural atoms (NEXT, glyph change, copy, insert, delete, assoc, attach), plus in quick the 1440 5-atom programs using one atom of each kind (advance, glyph change, delete, copy, attach) in every order, plus programs whose run-time stack use exceeds the loader's linear depth analysis (SET_FEAT x 2..20) '
               '{NEXT, PUT_GLYPH x|y, PUT_SUBS -1|0|+1, PUT_COPY -1|0|+1, INSERT, DELETE, ASSOC, attach.to -2..2, ATTR_SET adv/shift/att/insert, IATTR_SET user, SET_FEAT, slot/glyph-attr readers} x 6 terminators '
               '(RET_ZERO, POP_RET -2..2), in 3 (quick) / 6 (thorough) rule contexts (rule length 1..3, pre-context 0..1, maxRuleLoop 1/2/5, substitution or positioning pass) followed by a fixed attaching pass; '
-              '(constraint) every constraint program of <=4 / <=5 atoms over 20 atoms incl. CNTXT_ITEM bodies netting 0/+1/+2; (twopass) all ordered pairs (thorough: triples) of 18 hand-written attach/re-attach/delete/insert/copy/assoc rules '
+              '(constraint) every constraint program of <=4 / <=5 atoms over 20 atoms incl. CNTXT_ITEM bodies netting 0/+1/+2, plus CNTXT_ITEM bodies of k = 2..16 pushes (skipped at run time on the other slots) followed by k-1 AND/ADD/OR; (twopass) all ordered pairs (thorough: triples) of 18 hand-written attach/re-attach/delete/insert/copy/assoc rules '
               'in two passes / one pass / substitution+positioning, LTR and RTL fonts; (manyrules) scale seeds with 43..200 rules per rule length 1..4 ending in successive success states (candidate lists beyond the 128-entry rule buffers of the engine).  Every accepted font x every text of length 0..3 (thorough 0..4) over {a, b, unmapped} + astral/mark/long texts x dir flags {0,1,3,6} (thorough 0..7) x {font NULL, ppm 12}. ')
 
 for _p, _what in (('C02', 'oracle: ASan/UBSan silence, rule-loop counter hook <= maxRuleLoop x (slots + insert budget + 2), n_slots <= 64 x max(1,nChars), all gr_seg_*/gr_slot_*/gr_cinfo_* queries incl. every gr_slot_attr code, allocation balance, table borrow discipline'),
@@ -119,7 +119,7 @@ CHECKS['C19'] = dict(
     steps=[dict(mode='asan', bin='c19_justify')],
     rule='fonts {Padauk, Scheherazade, charis, Awami_test, Annapurna, S-full (justification levels), S-full RTL, S-full and S-full RTL with the line-end flag (temporary line-end slots)} x 3 (thorough 6) corpus texts of 5-9 (thorough 5-12) characters x dir flags 0..7 x {font NULL, ppm 24}; '
          'histories: EVERY subset of cluster-boundary break positions (up to 2^9 quick / 2^11 thorough) applied with gr_slot_linebreak_before, then for every line every (width in {-1,0,W/4,W,3W,1e6}) x flags 0..3 x (pFirst,pLast) in {NULL, whole line, inner, last-only}, '
-         'all calls applied one after another on the same segment; after EVERY call every line must still be the same slots in the same order with prev the inverse of next, finite origins and return value, unchanged gids when the font has no justification data; gr_seg_destroy + allocation balance at the end',
+         'plus the first one and two characters of the first text and a lone space as texts of their own; all calls applied one after another on the same segment; after EVERY call every line must still be the same slots in the same order with prev the inverse of next, finite origins and return value, unchanged gids when the font has no justification data; gr_seg_destroy + allocation balance at the end',
     state_meaning='states = break histories (one segment per subset of break positions); transitions = gr_seg_justify calls, each followed by the full integrity check of all lines',
     level_text='Explicit enumeration of all break-position subsets and all justify parameter choices as one growing API history per segment, on the real code, with the stream-integrity invariant evaluated after every call.',
     level_note='Trusted: the integrity oracle; ASan/UBSan. Break positions are restricted to cluster boundaries (no attachment crossing the break), texts to <= 9 characters.',
@@ -142,7 +142,7 @@ CHECKS['C15'] = dict(
 CHECKS['C10'] = dict(
     level='exploration',
     steps=[dict(mode='asan', bin='c10_options')],
-    rule='16 configurations (faceOptions 0..7 x {table callbacks, gr_make_file_face}) per font; fonts: all shipped + S-full variants (compressed, no sub-boxes, no glyf/loca, more attribute glyphs than outlines, a glyph storing a value for every attribute number and one storing only the last, Silf v3/v4, RTL), S-min, 40-feature font; '
+    rule='16 configurations (faceOptions 0..7 x {table callbacks, gr_make_file_face}) per font; fonts: all shipped + S-full variants (compressed, no sub-boxes, no glyf/loca, more attribute glyphs than outlines, a glyph storing a value for every attribute number and one storing only the last, a cmap whose first format 4 segment starts at U+0000 and whose closing segment FFFC..FFFF carries real mappings, Silf v3/v4, RTL), S-min, 40-feature font; '
          'face dump (every gr_face_*/gr_fref_* query, labels, is_char_supported probes) and every segment dump (bitwise, positions included) for corpus lines/words (60 quick / all thorough) resp. all strings <=2 (thorough <=3) over 9 characters x dir {0,1,3} x {default, first language} '
          'must equal configuration (0, callbacks); with preloadAll no get_table call after load. distinct = distinct reference dumps',
     level_text='Exhaustive configuration product (all option bits x both table sources) crossed with bounded text sets on the real code, differential oracle against the default configuration.',
@@ -173,7 +173,7 @@ CHECKS['C08'] = dict(
          'operations on ONE face and ONE font: 32 gr_make_seg variants (4 texts x dir x features x font/NULL, up to 2 live segments), destroy, justify, linebreak, feature/value label, featureval_for_lang, is_char_supported, full face dump, second font create/destroy; '
          'two searches per root: BFS to depth 4 (thorough 6) deduplicated on the mutable-state key (set of loaded glyphs, set of loaded boxes, loader present, name table read, set of cached advances, live segments) and a plain enumeration without deduplication to depth 2 (thorough 3); '
          'in EVERY visited state 72 probe segments (texts x dir {0,1,3} x features {default, language, modified} x {font, NULL}) and the face dump are compared with those of a fresh face. Each history is replayed on a fresh face. '
-         '(text_pair_histories) fonts {S-full, Awami_test, small.ttf} (thorough + Padauk, Charis, Scheherazade) x faceOptions {0, 6}: character set = base characters of the font, every pseudo-glyph character of its Silf tables, an unsupported character, and for each c also c+1, c+0x100, c+0x10000 (keys that collide under truncation / blocking); for EVERY ordered pair (c1, c2): one history step (shape [base,c1,base] in either direction, or gr_face_is_char_supported(c1)) on a fresh face, then one probe (shape [base,c2,base] x 2 directions, is_char_supported(c2)) compared with the probe on a fresh face',
+         '(text_pair_histories) fonts {S-full, Awami_test, small.ttf} (thorough + Padauk, Charis, Scheherazade) x faceOptions {0, 6}: character set = base characters of the font (incl. mapped supplementary-plane characters), every pseudo-glyph character of its Silf tables, an unsupported character, and for each c also c+1, c+0x100, c+0x10000 (keys that collide under truncation / blocking); for EVERY ordered pair (c1, c2): one history step (shape [base,c1,base] in either direction, or gr_face_is_char_supported(c1)) on a fresh face, then one probe (shape [base,c2,base] x 2 directions, is_char_supported(c2)) compared with the probe on a fresh face',
     state_meaning='states = visited API-history states in which all probes were evaluated; transitions = API operations replayed',
     level_text='Explicit-state search over API histories on real objects with a differential oracle (state reached through a history vs fresh object) in every state; key soundness is backed by an additional undeduplicated shallow enumeration.',
     level_note='Trusted: the key enumerates the mutable face/font state (read through private headers); canonical dumps. Bounded depth; at most two live segments. State not in the key (e.g. a newly introduced memo) is only reached through the undeduplicated enumeration and the exhaustive one-step text-pair histories.',
@@ -207,7 +207,7 @@ CHECKS['C01'] = dict(
     rule='deviation-bounded enumeration around well-formed seeds (small.ttf, S-min; S-full, S-full compressed, S-full v3/v4, Feat-v1 font, Padauk; thorough + Scheherazade, Awami plain/compressed, charis): '
          '(bytes) EVERY byte of every table of the small seeds x all 255 other values x faceOptions {0,7}; (fields) every structural field of the generator field map (counts, offsets, lengths, indices, opcodes; first 48 header bytes of each table for shipped fonts) x a boundary value set '
          '{0,1,orig+-1,+-2,half,double,7F,80,FF,100,7FFF,8000,FFFF,max-1,max,mid,table length+-1,remaining length+-1}; (pairs) all pairs of fields of one table x 6x6 values (small seeds; thorough S-full); (truncation) every prefix length of every table, table absent, 1/8/64 trailing garbage bytes; '
-         '(compressed_payload) every byte of the compressed Silf and Glat tables of S-full compressed (8-byte wrapper + LZ4 block) x all 255 other values, accepted mutants shaped (thorough + first 300/last 100 bytes of Awami compressed x 15 values); (container) every byte of the sfnt header and table directory x all values through gr_make_file_face. Oracle: ASan/UBSan silence, per-mutant watchdog, NULL or a face on which the complete face dump (all gr_face_*/gr_fref_*/gr_featureval_* queries, labels in 3 encodings, is_char_supported probes) and gr_face_destroy complete, '
+         '(truncation_with_field) every 2- or 4-byte field of every table <= 8 KB of every seed: the table loses its last c = 1..16 bytes AND the field is lowered by c, c/2, c/4, c/8 (a length, count or offset that described the extent up to the table end now matches the shorter table); (compressed_payload) every byte of the compressed Silf and Glat tables of S-full compressed (8-byte wrapper + LZ4 block) x all 255 other values, accepted mutants shaped (thorough + first 300/last 100 bytes of Awami compressed x 15 values); (container) every byte of the sfnt header and table directory x all values through gr_make_file_face. Oracle: ASan/UBSan silence, per-mutant watchdog, NULL or a face on which the complete face dump (all gr_face_*/gr_fref_*/gr_featureval_* queries, labels in 3 encodings, is_char_supported probes) and gr_face_destroy complete, '
          'allocation balance zero, table borrows all returned (also on the NULL path). distinct = distinct face dumps of accepted mutants',
     level_text='Exhaustive single-deviation (and bounded double-deviation) fault enumeration of the table bytes and structural fields around well-formed fonts, each mutant loaded by the real library under sanitizers with a memory-face environment model.',
     level_note='Trusted: ASan/UBSan, allocator statistics, memory face bookkeeping. Corruptions needing more than two coordinated fields are not reached; large shipped fonts are mutated in their header bytes only.',
